@@ -2,19 +2,17 @@
 ROUTER = '/repo/src/server/router.cc'
 OFFSETS = ['harness/offsets_router.cc']
 FIND = '_ZNK8Pistache4Rest15SegmentTreeNode9findRouteERKSt17basic_string_viewIcSt11char_traitsIcEERSt6vectorINS0_10TypedParamESaIS9_EESC_'
-UNITS = {'find': dict(src=ROUTER, mode='sel', roots=[FIND])}
-HARNESSES = []
-def fr(nn, ns, npar, tiers, witness=False, timeout=1800):
-    return dict(name='find_n%d_s%d_p%d' % (nn, ns, npar), units=['find'], file='c10_route.c', defs={'NNODES': nn, 'NSEG': ns, 'NPAR': npar}, unwind=max(nn, 3), hunwind=10,
-                tiers=tiers, witness=witness, timeout=timeout, memgb=14,
-                bound='every tree over a pool of %d nodes (<= 2 fixed children a/b, <= %d parameter children, <= 1 optional child, optional splat child, optional route per node; arbitrary forward links) x every path of exactly %d one-byte segments over {a,b}' % (nn, npar, ns),
-                desc='findRoute == reference matcher: same route (or none), same parameter and wildcard bindings')
-HARNESSES += [fr(3, 0, 1, ('quick', 'thorough')), fr(3, 1, 1, ('quick', 'thorough'), True), fr(3, 2, 1, ('quick', 'thorough'), True), fr(4, 2, 1, ('quick', 'thorough')),
-              fr(4, 3, 1, ('thorough',), True), fr(4, 2, 2, ('thorough',)), fr(5, 3, 1, ('thorough',)), fr(5, 4, 1, ('thorough',))]
+UNITS = {'find': dict(src=ROUTER, mode='sel', roots=[FIND], selfcall={FIND: 'vp_rec_findRoute'})}
+HARNESSES = [
+  dict(name='find_step', units=['find'], file='c10_route.c', defs={'NPAR': 2}, unwind=4, hunwind=34, timeout=1500,
+       bound='ONE level of findRoute on an arbitrary node: <= 2 fixed, <= 2 parameter, <= 1 optional, optional splat child, optional route; keys/names/segment of 1..2 arbitrary bytes; lower path of <= 3 arbitrary bytes; <= 2 earlier bindings; children answer arbitrarily (induction hypothesis)',
+       desc='findRoute step == reference: first succeeding alternative in the order fixed > parameter > optional > wildcard; exact bindings; failed lookups leave bindings untouched'),
+]
 ASSUMPTIONS = [
   'sel mode: SegmentTreeNode::findRoute translated; string_view, unordered_map<string_view, shared_ptr<Node>>, vector<TypedParam>, shared_ptr, tuple are ghost models at method boundaries',
-  'iteration order of an unordered_map = entry order of the model; the reference matcher shares it (precedence among siblings of one kind is unspecified by the property)',
-  'segments and keys are single bytes over {a,b}; parameter names are arbitrary bytes',
+  'recursive calls are replaced by the induction hypothesis (an arbitrary but fixed outcome per child that obeys the contract asserted for the node itself); well-founded because every call descends in the finite tree',
+  'iteration order of an unordered_map = entry order of the model; the reference shares it (precedence among siblings of one kind is unspecified by the property)',
+  'keys, names and the current segment are 1..2 bytes',
 ]
 OUTSIDE = ['normalisation of duplicate/leading/trailing slashes (std::regex_replace in sanitizeResource): libstdc++ regex cannot be encoded',
-           'longer segments, deeper trees than the stated bounds']
+           'more than 2 children of one kind per node; keys longer than 2 bytes']
